@@ -26,6 +26,9 @@ type Case struct {
 	// Big: the text / bytea value at (Row, Col) is replaced by Len patterned bytes before the stream is
 	// encoded (values of a megabyte and more, without storing them in the case)
 	Big *Inflate `json:"big,omitempty"`
+	// Limit > 0: the server's message limit (default 64 KiB): CopyData messages close to the limit,
+	// rows and values straddling their boundaries (the limit is about messages, not about rows)
+	Limit int `json:"limit,omitempty"`
 }
 
 type Inflate struct {
@@ -44,6 +47,9 @@ func clipv(s string) string {
 func bigLimit(c Case) int {
 	if c.Big != nil {
 		return 8 << 20
+	}
+	if c.Limit > 0 {
+		return c.Limit
 	}
 	return 1 << 16
 }
